@@ -208,7 +208,9 @@ impl<'de, 'c, 'a> DeserializeSeed<'de> for Capture<'c, 'a> {
 					_ => unreachable!(),
 				};
 				let has_null = bs.iter().any(|b| env.kind(b) == Kind::Null);
-				if self.ctx.cfg.option_mode && has_null {
+				// an Option target is legal on every union: without a null branch the value is always Some
+				let _ = has_null;
+				if self.ctx.cfg.option_mode {
 					d.deserialize_option(v)
 				} else {
 					d.deserialize_enum("U", &[], v)
@@ -411,7 +413,7 @@ impl<'de, 'c, 'a> Visitor<'de> for CapVisitor<'c, 'a> {
 					_ => unreachable!(),
 				};
 				let env = self.cap.ctx.env;
-				if bs.len() == 2 {
+				if bs.len() == 2 && bs.iter().any(|b| env.kind(b) == Kind::Null) {
 					// the crate hands the bare branch deserializer
 					let i = bs.iter().position(|b| env.kind(b) != Kind::Null).ok_or_else(|| de::Error::custom("capture: some for [null,null]"))?;
 					let inner = Capture { ctx: self.cap.ctx, s: &bs[i] }.deserialize(d)?;
@@ -827,6 +829,52 @@ impl<'de, 'c> Visitor<'de> for Digest<'c> {
 		self.state.mix(10, &[]).map_err(|_| de::Error::custom(BUDGET_MSG))?;
 		while let Some(()) = map.next_key_seed(Digest { state: self.state })? {
 			map.next_value_seed(Digest { state: self.state })?;
+		}
+		self.state.mix(11, &[]).map_err(|_| de::Error::custom(BUDGET_MSG))
+	}
+}
+
+/// The same event-counting target, but hinting `deserialize_ignored_any` at every node (what
+/// `serde::de::IgnoredAny` does) - so that the work done for IGNORED data can be budgeted too.
+pub struct IgnoringDigest<'c> {
+	pub state: &'c DigestState,
+}
+impl<'de, 'c> DeserializeSeed<'de> for IgnoringDigest<'c> {
+	type Value = ();
+	fn deserialize<D: Deserializer<'de>>(self, d: D) -> Result<(), D::Error> {
+		d.deserialize_ignored_any(self)
+	}
+}
+macro_rules! ign_forward {
+	($($f:ident($t:ty)),*) => { $(fn $f<E: de::Error>(self, v: $t) -> Result<(), E> { Digest { state: self.state }.$f(v) })* };
+}
+impl<'de, 'c> Visitor<'de> for IgnoringDigest<'c> {
+	type Value = ();
+	fn expecting(&self, f: &mut fmt::Formatter) -> fmt::Result {
+		f.write_str("anything (ignored)")
+	}
+	fn visit_unit<E: de::Error>(self) -> Result<(), E> {
+		Digest { state: self.state }.visit_unit()
+	}
+	fn visit_none<E: de::Error>(self) -> Result<(), E> {
+		Digest { state: self.state }.visit_none()
+	}
+	fn visit_some<D: Deserializer<'de>>(self, d: D) -> Result<(), D::Error> {
+		d.deserialize_ignored_any(self)
+	}
+	fn visit_newtype_struct<D: Deserializer<'de>>(self, d: D) -> Result<(), D::Error> {
+		d.deserialize_ignored_any(self)
+	}
+	ign_forward!(visit_bool(bool), visit_i32(i32), visit_i64(i64), visit_u32(u32), visit_u64(u64), visit_i128(i128), visit_u128(u128), visit_f32(f32), visit_f64(f64), visit_str(&str), visit_bytes(&[u8]));
+	fn visit_seq<A: SeqAccess<'de>>(self, mut seq: A) -> Result<(), A::Error> {
+		self.state.mix(8, &[]).map_err(|_| de::Error::custom(BUDGET_MSG))?;
+		while let Some(()) = seq.next_element_seed(IgnoringDigest { state: self.state })? {}
+		self.state.mix(9, &[]).map_err(|_| de::Error::custom(BUDGET_MSG))
+	}
+	fn visit_map<A: MapAccess<'de>>(self, mut map: A) -> Result<(), A::Error> {
+		self.state.mix(10, &[]).map_err(|_| de::Error::custom(BUDGET_MSG))?;
+		while let Some(()) = map.next_key_seed(IgnoringDigest { state: self.state })? {
+			map.next_value_seed(IgnoringDigest { state: self.state })?;
 		}
 		self.state.mix(11, &[]).map_err(|_| de::Error::custom(BUDGET_MSG))
 	}
